@@ -34,6 +34,7 @@ import (
 	"path/filepath"
 	"runtime"
 	"sort"
+	"strconv"
 	"strings"
 	"sync"
 	"sync/atomic"
@@ -785,6 +786,44 @@ func c15Child(c *Ctx) int {
 	defer os.RemoveAll(dir)
 	var cases []c15Case
 	switch c.Child[1] {
+	case "long-rotation":
+		// strict rotation must hold for ever, not only for as many draws as a small counter can
+		// count: k = 3 targets (no power of two), every draw compared with its predecessor
+		n, _ := strconv.ParseUint(c.Child[2], 10, 64)
+		const k = 3
+		tgts := make([]vegeta.Target, k)
+		for i := range tgts {
+			tgts[i] = vegeta.Target{Method: "GET", URL: fmt.Sprintf("http://rot.verif.test/%d", i)}
+		}
+		tr := vegeta.NewStaticTargeter(tgts...)
+		var t vegeta.Target
+		prev := -1
+		for d := uint64(0); d < n; d++ {
+			if err := tr(&t); err != nil {
+				run.Violate("C15/unexpected-error/static-long-rotation", fmt.Sprintf("draw %d of a static targeter with %d targets: %v", d, k, err), map[string]any{"draw": d, "targets": k})
+				break
+			}
+			want := (prev + 1) % k
+			if prev >= 0 && t.URL != tgts[want].URL {
+				run.Violate("C15/rotation-broken/static-long-rotation", fmt.Sprintf("static targeter with %d targets, sequential draws: draw %d returned %s right after %s (want %s)", k, d, t.URL, tgts[prev].URL, tgts[want].URL),
+					map[string]any{"draw": d, "targets": k, "got": t.URL, "previous": tgts[prev].URL})
+				break
+			}
+			if prev < 0 {
+				for i := range tgts {
+					if tgts[i].URL == t.URL {
+						want = i
+					}
+				}
+			}
+			prev = want
+		}
+		run.Eval(1)
+		run.Count("static_long_rotation_draws", int64(n))
+		run.Class("static/long-rotation")
+		run.Distinct(fmt.Sprintf("long-rotation:%d", n))
+		fmt.Println(run.BlobLine())
+		return ev.ExitOK
 	case "shard":
 		var i, n int
 		if _, err := fmt.Sscanf(c.Child[2], "%d/%d", &i, &n); err != nil || n <= 0 {
@@ -900,6 +939,10 @@ func runC15(c *Ctx) int {
 			specs = append(specs, childSpec{Race: race, Args: []string{mode, "shard", fmt.Sprintf("%d/%d", i, shards)},
 				Label: fmt.Sprintf("%s-%d/%d", mode, i, shards), Timeout: time.Duration(c.Pick(5, 25)) * time.Minute})
 		}
+	}
+	if !c.Quick() {
+		// thorough tier only (75-90 s of one core): one static targeter is drawn from 2^32 + 2^20 times in a row
+		specs = append(specs, childSpec{Args: []string{"plain", "long-rotation", "4296015872"}, Label: "static targeter, 2^32+2^20 sequential draws", Timeout: 25 * time.Minute})
 	}
 	outs := runChildren(c, specs, 8)
 	c15Fold(run, outs)
